@@ -455,8 +455,109 @@ def str_interp(t, cache):
     return pstr.interp_strings(t, cache, side)
 
 
+# ---- SymbolTable.lookup / _lookup_formatted_name along the parent chain ------------------------------------
+chain_has = z3.Function('chain_declares', z3.IntSort(), V, z3.BoolSort())     # some table of the chain starting at
+chain_val = z3.Function('chain_value', z3.IntSort(), V, V)                      # table #id declares key / its value
+
+
+def spec_lookup(entry, recursive):
+    """lookup(name, recursive): the innermost declaration along parent*, as a fresh copy; None if there is none.
+    The recursive call on the parent table is the induction hypothesis (contract stub on the parent model)."""
+    clsname = 'SymbolTable'
+    file, base, fold, is_st = CLASSES[clsname]
+    overridden = set(rewrite.class_info(file, clsname)['methods'])
+
+    class ParentModel(ModelDict):
+        """the parent table: only its _lookup_formatted_name contract and its (dict) truthiness are visible"""
+
+        def __init__(self, pid, has_parent):
+            ModelDict.__init__(self, clsname, base, {})
+            self.pid = pid
+
+        def _lookup_formatted_name(self, name, recursive):
+            c = ctx()
+            kt = V.VStr(pstr._s(name))
+            c.ghost['parent_called_with'] = (kt, recursive)
+            if c.branch(chain_has(self.pid, kt), 'parent-chain-declares'):
+                n = c.ghost.get('allocated', 0) + 1
+                c.ghost['allocated'] = n
+                return SV(T, T.ctor['C_SymbolAttributes'](ALLOC + n, content(chain_val(self.pid, kt))),
+                          cls='SymbolAttributes')
+            return None
+
+        def __bool__(self):
+            # a dict is falsy when empty: the parent's own table may well be empty while its ancestors are not
+            return ctx().branch(self.raw.dom != z3.EmptySet(V), 'parent-table-nonempty')
+
+    def setup(spec):
+        c = ctx()
+        has_parent = c.branch(c.fresh(z3.BoolSort(), 'has_parent'), 'has-parent')
+        parent = ParentModel(c.fresh(z3.IntSort(), 'parent_id'), True) if has_parent else None
+        md = ModelDict(clsname, base, _methods_table(clsname, overridden), parent=parent)
+        key = SStr(c.fresh(z3.StringSort(), 'key'))
+        khat = V.VStr(fold(key.t))
+        c.assume(ident(z3.Select(md.raw.val, khat)) <= ALLOC)
+        c.assume(z3.Implies(z3.IsMember(khat, md.raw.dom),
+                            T.recog['is_C_SymbolAttributes'](z3.Select(md.raw.val, khat))))
+        if parent is not None:
+            c.assume(z3.Implies(chain_has(parent.pid, khat),
+                                z3.And(T.recog['is_C_SymbolAttributes'](chain_val(parent.pid, khat)),
+                                       ident(chain_val(parent.pid, khat)) <= ALLOC)))
+        env = {'md': md, 'dom0': md.raw.dom, 'val0': md.raw.val, 'key': key, 'khat': khat, 'parent': parent}
+        rec = c.fresh(z3.BoolSort(), 'recursive') if recursive is None else recursive
+        recv = mk_bool(rec) if not isinstance(rec, bool) else rec
+        env['recursive'] = rec if not isinstance(rec, bool) else z3.BoolVal(rec)
+        if entry == 'lookup':
+            env['call'] = lambda: md._methods['lookup'](md, key, recv)
+        else:
+            env['call'] = lambda: md._methods['_lookup_formatted_name'](md, SStr(fold(key.t)), recv)
+        return (env,), {}, env
+
+    def post(env, r):
+        md, khat, parent = env['md'], env['khat'], env['parent']
+        here = z3.IsMember(khat, env['dom0'])
+        old = z3.Select(env['val0'], khat)
+        rec = env['recursive']
+        if parent is not None:
+            up = z3.And(rec, chain_has(parent.pid, khat))
+            upval = chain_val(parent.pid, khat)
+        else:
+            up, upval = z3.BoolVal(False), old
+        found = z3.Or(here, up)
+        want = z3.If(here, old, upval)
+        out = [('frame', z3.And(md.raw.dom == env['dom0'], md.raw.val == env['val0']))]
+        if r is None:
+            out.append(('none-only-if-undeclared', z3.Not(found)))
+        else:
+            rt = T.lift(r)
+            out += [('found', found), ('innermost-declaration', content(rt) == content(want)),
+                    ('fresh-copy', ident(rt) > ALLOC)]
+        return out
+
+    def decode(env, m, r):
+        ev = lambda t: m.eval(t, model_completion=True)
+        key = ev(env['key'].t)
+        return {'class': clsname, 'method': entry, 'key': key.as_string() if z3.is_string_value(key) else '',
+                'here': z3.is_true(ev(z3.IsMember(env['khat'], env['dom0']))),
+                'has_parent': env['parent'] is not None,
+                'parent_empty': (env['parent'] is not None and
+                                 z3.is_true(ev(env['parent'].raw.dom == z3.EmptySet(V)))),
+                'ancestor_declares': (env['parent'] is not None and
+                                      z3.is_true(ev(chain_has(env['parent'].pid, env['khat'])))),
+                'recursive': z3.is_true(ev(env['recursive']))}
+    sp = FunctionSpec(PROP, file, '%s.%s' % (clsname, entry), {}, setup, post, theory=T,
+                      variant='chain', lemmas=pstr_lemmas(), decode=decode, super_=_super, interp=str_interp,
+                      budgets=(600_000, 2_000_000, 0, 1_500_000, 2_000_000),
+                      notes=['parent table = contract stub (induction hypothesis on the chain); its truthiness is that of '
+                             'a dict (empty => falsy)'])
+    sp.fn_override = lambda env: env['call']()
+    sp.fn_info = {'file': file, 'qualname': '%s.%s' % (clsname, entry), 'sha': _method_sha(file, clsname, entry),
+                  'loops': {}, 'dropped': []}
+    return sp
+
+
 def specs(tier='quick'):
-    out = []
+    out = [spec_lookup('lookup', None), spec_lookup('_lookup_formatted_name', None)]
     for clsname, (file, base, fold, is_st) in CLASSES.items():
         overridden = set(rewrite.class_info(file, clsname)['methods'])
         for meth in ENTRY:
